@@ -1,15 +1,18 @@
 #!/bin/sh
-# tools/try_seed.sh <seed-id> <tier> <PID> [<PID> ...] : apply a seeded change to /repo, run checks, always revert
+# tools/try_seed.sh <seed-id> <tier> <PID> [<PID> ...] : apply a seeded change to a scratch worktree of /repo (never to /repo itself),
+# run the checks against it (VF_REPO), remove the worktree
 SID=$1; TIER=$2; shift 2
 cd /verif
-git -C /repo diff --quiet || { echo "/repo is dirty"; exit 2; }
-git -C /repo apply /verif/seeded/$SID/patch.diff || { echo "patch does not apply"; exit 2; }
+WT=/tmp/vf_seedwt_$$
+git -C /repo worktree add -q --detach $WT HEAD || exit 2
+cp /repo/smpl_extract/filters/*.so $WT/smpl_extract/filters/
+git -C $WT apply /verif/seeded/$SID/patch.diff || { echo "patch does not apply"; git -C /repo worktree remove --force $WT; exit 2; }
 for P in "$@"; do
   echo "=== $SID vs $P ($TIER)"
-  ./check $P --tier $TIER ${ONLY:+--only $ONLY} > /tmp/try_$SID_$P.log 2>&1; RC=$?
-  grep -E "^(VIOLATION|KNOWN|HARNESS)" /tmp/try_$SID_$P.log | cut -c1-300 | head -5
-  grep -E "^$P " /tmp/try_$SID_$P.log | cut -c1-200
+  VF_REPO=$WT ./check $P --tier $TIER ${ONLY:+--only $ONLY} > /tmp/try_${SID}_$P.log 2>&1; RC=$?
+  grep -E "^(VIOLATION|KNOWN|HARNESS)" /tmp/try_${SID}_$P.log | cut -c1-300 | head -5
+  grep -E "^$P " /tmp/try_${SID}_$P.log | cut -c1-200
   echo "exit=$RC"
 done
-git -C /repo checkout -- . 
+git -C /repo worktree remove --force $WT
 git -C /verif checkout -- evidence 2>/dev/null
